@@ -19,7 +19,11 @@ func init() {
 			"(2) in Core.handleCancelableRequest every return that can carry a response after the handlers ran crosses the success edge of AuditBroker.LogResponse, whose failure edge returns a nil response, and the Response put into that audit's LogInput is the response returned across the success edge (same origins; the only other origin allowed is the decoded body on the unwrap path; never absent); " +
 			"(3) AuditBroker.LogRequest/LogResponse report success only if some device accepted the entry (the only 'true' flowing into anyLogged sits on the device call's nil-error edge) or no device is configured, a panic in a device is recovered into an error, and the per-device header transformation replaces the raw headers before every device call; " +
 			"(4) in non-raw mode every field of the audit entry structs is read out of the hashed copies returned by HashAuth/HashRequest/HashResponse, never from the LogInput directly; " +
-			"(5) the sanitisers overwrite every sensitive field (client token, accessors when configured, request/response data, nested auth, wrap info token/accessors) of a *copy* with the salted-HMAC function's result and return the copy; the map handed to hashMap is the very value the overwrite stores (resolved flow-sensitively at the call, so hashing the input's live map through the not-yet-overwritten copy field is refused); the walker writes back only the callback's result and skips a leaf only for map keys, non-strings, RFC3339 times and a leaf whose *own* current key is in the exemption list.",
+			"(5) the sanitisers overwrite every sensitive field (client token, accessors when configured, request/response data, nested auth, wrap info token/accessors) of a *copy* with the salted-HMAC function's result and return the copy; the map handed to hashMap is the very value the overwrite stores (resolved flow-sensitively at the call, so hashing the input's live map through the not-yet-overwritten copy field is refused); the walker writes back only the callback's result and skips a leaf only for map keys, non-strings, RFC3339 times and a leaf whose *own* current key is in the exemption list; " +
+			"(5b) hashMap hands HashStructure its own map, callback and exemption-list parameters unchanged; the walker's container and index stacks (cs/csKey) are pushed by Map/Slice/MapElem/SliceElem, popped by Exit on the matching location on every path, and written nowhere else; nothing is written into (or handed on from) the copy after hashMap hashed it; " +
+			"(4b) the formatter sanitises request data with LogInput.NonHMACReqDataKeys and response data with LogInput.NonHMACRespDataKeys, and (2b) each of these lists is nil or read from the cache of the mount entry matched for the request path under the very key under which MountEntry.SyncCache publishes Config.AuditNonHMACRequestKeys / AuditNonHMACResponseKeys; (2d) wherever a live mount entry's Config or one of its two exemption lists is assigned, SyncCache on that entry follows on every path, and where the assignment registers a deferred restore (tune rollback) the entry's SyncCache is itself deferred and registered before that restore, so the cache is filled from what remains after a rollback; (2c) no field, auth block or data map of a logical.Response is written after the response audit in Core.handleCancelableRequest; " +
+			"(3b) AuditedHeadersConfig.ApplyConfig returns a nil header map when hashing a value fails, replaces values by the hash function's result only behind the header's HMAC setting, and publishes the slice it replaced them in; " +
+			"(6) every builtin audit device's LogRequest/LogResponse returns nil only across the success edge of AuditFormatter.FormatRequest/FormatResponse (tabled: the file device set to discard), called with the device's own formatConfig and the input it was given.",
 		NotDecided: "that reflectwalk visits every leaf of every payload shape (runtime traversal); absence of secrets in fields logged by design (paths, metadata, policy names, remote address); behaviour of individual audit devices.",
 		Run:        runC11,
 	})
@@ -370,6 +374,7 @@ func runC11(c *eng.Ctx, thorough bool) {
 	// ---------- C11.5 sanitiser table
 	c11Sanitisers(c)
 	c11Walker(c)
+	runC11Gaps2(c)
 }
 
 // c11PhiLeaves collects the non-phi values merged into v.
